@@ -189,54 +189,58 @@ def flip_parity(repo: Repo, R):
     flip, isport = roles["flip"], roles["is_port"]
     # recursive call
     recs = pat.find("self.flatten_bundle_inst_helper(*$_)", fi.node)
-    if len(recs) != 1:
-        raise AnalysisError(f"idiom-unknown: expected one recursive call in {fi.site}")
-    rc = recs[0][0]
-    rkw = {k.arg: k.value for k in rc.keywords}
-    loop = enclosing(fi.node, rc, (ast.For,))
+    if not recs:
+        raise AnalysisError(f"idiom-unknown: no recursive call in {fi.site}")
+    from . import shared as _sh
     env = au.local_env(fi.node)
-    sub = ast.unparse(loop.target) if loop is not None else None
-    it_ok = loop is not None and ast.unparse(au.expand(loop.iter, env)).endswith(".of.bundles.values()")
-    R.check(it_ok and ast.unparse(rkw.get("bundle_inst", ast.Constant(None))) == sub, rule, key_of(fi, "recurse-every-sub-bundle"), fi.at(rc),
-            f"the helper recurses into every sub-bundle instance of the definition: {it_ok}", why="nested bundle members are not flattened")
-    R.check(ast.unparse(rkw.get(isport, ast.Constant(None))) == isport, rule, key_of(fi, "portness-inherited"), fi.at(rc),
-            f"port-ness is passed down unchanged (`{isport}={ast.unparse(rkw.get(isport, ast.Constant(None)))}`)", why="leaves of nested bundles of a port are not ports (or vice versa)")
+    loops = {id(enclosing(fi.node, rc, (ast.For,))): enclosing(fi.node, rc, (ast.For,)) for rc, _b in recs}
+    if len(loops) != 1 or None in loops.values():
+        raise AnalysisError(f"idiom-unknown: the recursive calls of {fi.site} are not in one loop over the sub-bundles")
+    loop = next(iter(loops.values()))
+    sub = ast.unparse(loop.target)
+    it_ok = ast.unparse(au.expand(loop.iter, env)).endswith(".of.bundles.values()")
+    # one recursive call, or one per branch of a decision (the canonical form moves a call that follows an if/else into
+    # its branches): every one of them is looked at
+    outer = len(_sh.path_conditions(fi.node, loop))
+    every = True
+    port_ok = True
+    entries = []  # (value passed as flip, conditions inside the loop)
+    for rc, _b in recs:
+        rkw = {k.arg: k.value for k in rc.keywords}
+        every = every and ast.unparse(rkw.get("bundle_inst", ast.Constant(None))) == sub
+        port_ok = port_ok and ast.unparse(rkw.get(isport, ast.Constant(None))) == isport
+        fv = rkw.get(flip)
+        if fv is None:
+            raise AnalysisError(f"idiom-unknown: recursive call passes no `{flip}`")
+        for v, cds in _sh.alternatives(fi.node, fv, _sh.path_conditions(fi.node, rc)[outer:], at=rc):
+            entries.append((v, _sh.resolved_conditions(fi.node, cds)))
+    rc = recs[0][0]
+    # the calls together cover every path through the loop body (no sub-bundle is skipped)
+    R.check(it_ok and every, rule, key_of(fi, "recurse-every-sub-bundle"), fi.at(rc),
+            f"the helper recurses into every sub-bundle instance of the definition: {it_ok and every}", why="nested bundle members are not flattened")
+    R.check(port_ok, rule, key_of(fi, "portness-inherited"), fi.at(rc),
+            f"port-ness is passed down unchanged (`{isport}={isport}`): {port_ok}", why="leaves of nested bundles of a port are not ports (or vice versa)")
     # parity step: value passed as flip == flip XOR sub.flipped
-    fv = rkw.get(flip)
-    if fv is None:
-        raise AnalysisError(f"idiom-unknown: recursive call passes no `{flip}`")
     tt = {}
-    expr = fv
-    branchy = isinstance(fv, ast.Name) and loop is not None and sum(1 for x in ast.walk(loop) if isinstance(x, ast.Assign) and len(x.targets) == 1 and isinstance(x.targets[0], ast.Name) and x.targets[0].id == fv.id) > 1
+    expr = entries[0][0]
     try:
-        if branchy:
-            # the value is chosen by an if/else over the flags (the canonical form of a conditional expression)
-            def m_flip(t):
-                return isinstance(t, ast.Name) and t.id == flip
-
-            def m_sub(t):
-                return ast.unparse(t) == f"{sub}.flipped"
-
-            tab = fde.decision_table(list(loop.body), [("flip", m_flip), ("sub", m_sub)], [fv.id], lambda v: ast.unparse(v), tolerant=True)
-            for (a, b), res in tab.items():
-                txt = res[fv.id]
-                if txt == flip:
-                    tt[(a, b)] = a
-                elif txt in (f"not {flip}",):
-                    tt[(a, b)] = not a
-                elif txt in ("True", "False"):
-                    tt[(a, b)] = txt == "True"
-                else:
-                    raise fde.Unknown(f"value `{txt}`")
-        else:
-            defs = {}
-            for st in (ast.walk(loop) if loop is not None else []):
-                if isinstance(st, ast.Assign) and len(st.targets) == 1 and isinstance(st.targets[0], ast.Name):
-                    defs[st.targets[0].id] = st.value
-            expr = au.expand(fv, defs, depth=2)
-            for a in (False, True):
-                for b in (False, True):
-                    tt[(a, b)] = fde._ev(expr, {flip: a, sub: _SubFlipped(b)})
+        for a in (False, True):
+            for b in (False, True):
+                vals = set()
+                for v, cds in entries:
+                    ok_path = True
+                    for t, pol in cds:
+                        try:
+                            tv = fde._ev(t, {flip: a, sub: _SubFlipped(b)})
+                        except fde.Unknown:
+                            raise fde.Unknown(f"condition `{ast.unparse(t)}`")
+                        if bool(tv) != pol:
+                            ok_path = False
+                    if ok_path:
+                        vals.add(bool(fde._ev(v, {flip: a, sub: _SubFlipped(b)})))
+                if len(vals) != 1:
+                    raise fde.Unknown(f"{len(vals)} values for (flip={a}, sub.flipped={b})")
+                tt[(a, b)] = vals.pop()
     except fde.Unknown as e:
         raise AnalysisError(f"idiom-unknown: flip step `{ast.unparse(expr)}`: {e}")
     want = {(a, b): (a != b) for a in (False, True) for b in (False, True)}
